@@ -49,7 +49,8 @@ def run(run_):
     run_.coverage.update({
         "evaluations": out["tried"],
         "distinct_nontrivial": len({tuple(a["s"]) for a in acc}),
-        "rule": "every string of length <= %d over the %d-symbol alphabet [a-zA-Z0-9#- ] (exhaustive), plus sampled longer/arbitrary-byte strings; "
+        "rule": "every string of length <= %d over the %d-symbol alphabet [a-zA-Z0-9#- ] (exhaustive), every byte string of length <= 2 over all 256 byte "
+                "values and every 3-byte string with one arbitrary byte and two alphabet symbols (exhaustive), plus sampled longer/arbitrary-byte strings; "
                 "non-trivial = distinct strings the implementation accepted (each compared with the proved 280-entry table), "
                 "all others must be rejected; all 128 numbers through NoteToPitch/NoteToOctave" % (maxlen, len(ALPHABET)),
         "samples": [{"input": s_of(a["s"]), "value": a["n"]} for a in acc[:6]] + [{"input": "H1", "expected": "rejected"}],
